@@ -49,6 +49,8 @@ CAND = {
                ("('d41d8cd98f00b204e9800998ecf8427e00', None, None)", R), ("('d41d8cd98f00b204e9800998ecf842', None, None)", R), ("('zz1d8cd98f00b204e9800998ecf8427e', None, None)", R),
                ("(None, 'd41d8cd98f00b204e9800998ecf8427e', None)", R), ("(None, None, 'd41d8cd98f00b204e9800998ecf8427e')", R),
                ("('da39a3ee5e6b4b0d3255bfef95601890afd80709', None, None)", R), ("{'md5': 'd41d8cd98f00b204e9800998ecf8427e'}", V), ("{'sha1': 'abc'}", R),
+               ("('d41d8cd98f00b204e9800998ecf8427e\\n', None, None)", R), ("('d41d8cd98f00b204 e9800998ecf8427e00', None, None)", R), ("(' d41d8cd98f00b204e9800998ecf8427e', None, None)", R),
+               ("('d41d8cd98f00b204e9800998ecf8427\\te0', None, None)", R), ("(None, 'da39a3ee5e6b4b0d3255bfef95601890afd80709\\r\\n', None)", R),
                ("None", V), ("(None, None, None)", V)],
     "path": [("'/a/b'", V), ("''", V), ("windows_path('C:\\\\a')", V), ("PWP('D:\\\\x')", V), ("5", W), ("None", V), ("b'/raw'", W)],
     "command": [("'ls -l'", V), ("'C:\\\\x.exe /a'", V), ("5", W), ("None", V), ("['ls']", W)],
